@@ -269,7 +269,8 @@ func checkC07(c *Ctx, r *Report) {
 		for _, w := range fieldWrites(c, fv) {
 			n++
 			p := w.path
-			if !(strings.HasSuffix(p, ".Tag") || strings.HasSuffix(p, "$Tag") || p == `""` || strings.HasSuffix(p, ".current.Value")) {
+			plainLocal := strings.HasPrefix(p, "$") && !strings.ContainsAny(p, ".[(") // the line's tag local (tag-is-the-text-between-angle-brackets checks what it holds)
+			if !(strings.HasSuffix(p, ".Tag") || plainLocal || p == `""` || strings.HasSuffix(p, ".current.Value")) {
 				bad = fmt.Sprintf("%s writes %s", w.fn, p)
 			}
 		}
